@@ -36,6 +36,8 @@ Inductive cmd :=
 | CMath (f : mathfn) (t : nat)
 | CBin (b : binary) (t : nat) (u : targ)
 | CEquals (t : nat) (u : targ)
+| CDot (t : nat) (u : targ)
+| CMatMul (t : nat) (u : targ)
 | CTranspose (t : nat)
 | CReshape (t : nat) (shape : list Z)
 | CBroadcast (t : nat) (shape : list Z)
@@ -209,6 +211,18 @@ Definition step (s : state) (c : cmd) : state * obs :=
       | Some _, Some None => plain s ObErr
       | _, _ => bad s
       end
+  | CDot t u =>
+      match lookupT s t, lookupArg s u with
+      | Some x, Some (Some y) => fin s (h_dot h x y nm)
+      | Some _, Some None => plain s ObErr
+      | _, _ => bad s
+      end
+  | CMatMul t u =>
+      match lookupT s t, lookupArg s u with
+      | Some x, Some (Some y) => fin s (h_matmul h x y nm)
+      | Some _, Some None => plain s ObErr
+      | _, _ => bad s
+      end
   | CTranspose t => match lookupT s t with Some x => fin s (h_transpose h x nm) | None => bad s end
   | CReshape t shape => match lookupT s t with Some x => fin s (h_reshape h x shape nm) | None => bad s end
   | CBroadcast t shape => match lookupT s t with Some x => fin s (h_broadcast h x shape nm) | None => bad s end
@@ -259,9 +273,14 @@ Definition step (s : state) (c : cmd) : state * obs :=
       | Some (Some x) =>
           match bp_topo rd (sealg name) h x with
           | (h', log, Ok _) =>
-              (push s h' ONone (st_rng s), ObGrads (length (flat_map (fun e : nat * T =>
-                    filter (fun ed : nat * rule => trackedOf h' (fst ed)) (edgesOf h' (fst e))) log))
-                                                 (gradsObs h' (st_env s) log))
+              (* chain gradient functions evaluated: the seed (tracked root) and one per back edge
+                 with a tracked target of every processed context *)
+              (push s h' ONone (st_rng s),
+               ObGrads (if trackedOf h x
+                        then S (length (flat_map (fun e : nat * T =>
+                                 filter (fun ed : nat * rule => trackedOf h' (fst ed)) (edgesOf h' (fst e))) log))
+                        else 0)
+                       (gradsObs h' (st_env s) log))
           | (_, _, Err) => plain s ObErr
           | (_, _, Panic) => plain s ObPanic
           end
